@@ -4,6 +4,8 @@ import KoordVerif.Proofs.C16ExtArb
 import KoordVerif.Proofs.C16Ext2Cycle
 import KoordVerif.Proofs.C16Ext2Dim
 import KoordVerif.Proofs.C16Ext3
+import KoordVerif.Proofs.C16Ext5
+import KoordVerif.Proofs.C16Ext5Seq
 /-
 C16 — descheduler disruption budgets are never exceeded, even with concurrent evictors.
 
@@ -135,6 +137,54 @@ example : (run peRefuse ⟨some 1, none, none⟩ (initCS [theBlock] [(⟨1, 0⟩
     = [⟨1, 0⟩] := by decide
 example : oneSection (toProg [(true, [0, 1, 2])]) = true := by decide
 example : oneSection splitProg = false ∧ oneSection allowDoneProg = false := by decide
+
+/-! #### the scope of the lock (Proofs/C16Ext5.lean: callers with a framework, a proxy and a named lock object) -/
+
+/-- **global_lock_safe_any_frameworks.**  With the package-level lock, for ANY number of callers spread over ANY number of
+    frameworks (profiles) and proxies that share one EvictionLimiter, and any schedule of their single actions (Lock +
+    AllowEvict | evict call | Done + Unlock): at every moment the evictions issued are within the caps per real node /
+    namespace / in total, and whenever no caller is inside the section the limiter's counters equal the evictions issued. -/
+theorem global_lock_safe_any_frameworks (caps : Caps) (n : Nat) (req : Nat → Req) (sched : List Nat) :
+    let s := lrun elRefuse caps .global n req linit sched
+    IssuedWithin caps s.issued ∧ ((∀ j, insidePc (s.pc j) = false) → Good caps s.ctr s.issued) :=
+  shared_lock_safe elRefuse caps (elRefuse_ok caps) .global n req (sameLock_global n req) sched
+
+/-- a lock per framework is enough exactly as long as all callers evict through ONE framework (the one-profile
+    configuration; any number of proxies and goroutines) … -/
+theorem per_framework_lock_safe_one_framework (caps : Caps) (n : Nat) (req : Nat → Req)
+    (h1 : ∀ i j, i < n → j < n → (req i).fw = (req j).fw) (sched : List Nat) :
+    let s := lrun elRefuse caps .perFramework n req linit sched
+    IssuedWithin caps s.issued ∧ ((∀ j, insidePc (s.pc j) = false) → Good caps s.ctr s.issued) :=
+  shared_lock_safe elRefuse caps (elRefuse_ok caps) .perFramework n req (fun i j hi hj => h1 i j hi hj) sched
+
+/-- … and not with two: one caller per framework, schedule Lock₀ Lock₁ call₀ call₁ Done₀ Done₁ issues 2 evictions against a
+    total / per-node / per-namespace cap of 1 (and the counter then reads 2). -/
+theorem per_framework_lock_two_frameworks_counterexample :
+    ¬ (∀ sched, (lrun elRefuse ⟨none, none, some 1⟩ .perFramework 2 twoFrameworks linit sched).issued.length ≤ 1) ∧
+    ¬ (∀ sched, issuedBy (·.node) (lrun elRefuse ⟨some 1, none, none⟩ .perFramework 2 twoFrameworks linit sched).issued 1 ≤ 1) ∧
+    ¬ (∀ sched, issuedBy (·.ns) (lrun elRefuse ⟨none, some 1, none⟩ .perFramework 2 twoFrameworks linit sched).issued 0 ≤ 1) ∧
+    (lrun elRefuse ⟨none, none, some 1⟩ .perFramework 2 twoFrameworks linit [0, 1, 0, 1, 0, 1]).ctr.total = 2 := by
+  refine ⟨fun h => absurd (h [0, 1, 0, 1, 0, 1]) (by decide), fun h => absurd (h [0, 1, 0, 1, 0, 1]) (by decide),
+    fun h => absurd (h [0, 1, 0, 1, 0, 1]) (by decide), by decide⟩
+
+/-- the shape repaired by 62f0c55: a lock per proxy, two callers of ONE framework with a fresh `handle.Evictor()` each -/
+theorem per_proxy_lock_fresh_proxies_counterexample :
+    ¬ (∀ sched, (lrun elRefuse ⟨none, none, some 1⟩ .perProxy 2 twoFreshProxies linit sched).issued.length ≤ 1) :=
+  fun h => absurd (h [0, 1, 0, 1, 0, 1]) (by decide)
+
+/-- **sequential_any_scope_safe.**  Callers that run one after the other (each its Lock+AllowEvict, evict call, Done+Unlock in
+    a row, in any order of callers, through any frameworks / proxies) keep the caps and counters = issued WHATEVER the scope of
+    the lock: sequential multi-profile use cannot tell the scopes apart — only concurrent callers of different lock objects can. -/
+theorem sequential_any_scope_safe (caps : Caps) (sc : LockScope) (n : Nat) (req : Nat → Req) (order : List Nat) :
+    let s := lrun elRefuse caps sc n req linit (seqSched order)
+    IssuedWithin caps s.issued ∧ Good caps s.ctr s.issued := by
+  have q := quiet_seq (sc := sc) (n := n) (req := req) (elRefuse_ok caps) order linit
+    ⟨fun _ => by simp [linit, insidePc], good_init caps⟩
+  exact ⟨good_within q.2, q.2⟩
+
+/-- the same requests and schedule under the package-level lock / under one framework: the second Lock blocks, one eviction -/
+example : (lrun elRefuse ⟨none, none, some 1⟩ .global 2 twoFrameworks linit [0, 1, 0, 1, 0, 1, 1, 1]).issued = [⟨1, 0⟩] := by decide
+example : (lrun elRefuse ⟨none, none, some 1⟩ .perFramework 2 twoFreshProxies linit [0, 1, 0, 1, 0, 1, 1, 1]).issued = [⟨1, 0⟩] := by decide
 
 /-! ### Part 2 — arbitration round
 
